@@ -268,6 +268,14 @@ def gen_window(tier, seed):
                         if tier == "quick" and (N, kind) in ((1, "complex"), (3, "real")):
                             continue
                         yield {"T": T, "dt": dt, "dstep": dstep, "period": str(period), "kind": kind, "N": N, "t0": t0, "seed": seed}
+            # periods that are NOT whole numbers of dt, 0.4 dt below / above an exact multiple of the frame interval (floor must give k-1 / k;
+            # rounding the period to whole steps first gives k / k)
+            for k in range(1, T + 1):
+                for sgn in (-1, 1):
+                    period = interval * k + sgn * Decimal(dt) * Decimal("0.4")
+                    if period < interval:
+                        continue  # a window of zero frames is outside the statement
+                    yield {"T": T, "dt": dt, "dstep": dstep, "period": str(period), "kind": "complex", "N": 3, "t0": 1000, "seed": seed}
 
 
 def run_window(case):
